@@ -67,11 +67,24 @@ pub fn check_history<T: Sc>(rng: &mut Rng, spec: &CodedSpec, len: usize) -> (u64
                 mb.len.store(l, SeqCst);
                 mb.hit.store(false, SeqCst);
                 mb.target.store((j * 16) as i64, SeqCst);
+                // in a third of the cases a second function misbehaves in the same evaluation, with a
+                // length that makes the total number of returned elements come out right (or not)
+                let mut second = String::new();
+                if m >= 2 && rng.chance(0.34) {
+                    let j2 = (j + 1 + rng.below(m - 1)) % m;
+                    let l2 = if rng.chance(0.7) && 2 * n >= l { 2 * n - l } else { wrong_len(rng) };
+                    if l2 != n {
+                        mb.len2.store(l2, SeqCst);
+                        mb.target2.store((j2 * 16) as i64, SeqCst);
+                        second = format!(" and function {j2} a vector of length {l2}");
+                    }
+                }
                 let r = model.eval();
                 mb.target.store(-1, SeqCst);
+                mb.target2.store(-1, SeqCst);
                 misuse += 1;
                 if let Ok(mat) = r {
-                    return (obs, misuse, Some(format!("step {step}: function {j} returned a vector of length {l} (N={n}) but eval() returned Ok with a {}x{} matrix", mat.nrows(), mat.ncols())));
+                    return (obs, misuse, Some(format!("step {step}: function {j} returned a vector of length {l}{second} (N={n}) but eval() returned Ok with a {}x{} matrix", mat.nrows(), mat.ncols())));
                 }
             }
             3 => {
@@ -237,7 +250,7 @@ pub fn miri_shards(ctx: &Ctx, prop: &str, shards: u64, cases: &str, nmax: &str) 
 }
 
 pub fn run(ctx: &Ctx) {
-    ctx.rule("builder-made models (1..6 parameters, functions of arity 1..6 over ordered subsets, invariant functions, N in 1..9, f32/f64) driven through histories of 12 (quick) / 40 (thorough) operations mixing valid updates with misuse: a function or a derivative closure at a random position returning a vector that is empty / one shorter / one longer / much longer than N, derivative indices P, P+1 and far beyond, parameter vectors of length 0, P-1, P+1 and more. Each misuse must return Err (never a panic, never Ok with a mis-shaped matrix); after every operation params(), eval() and every eval_partial_deriv(k) are compared bitwise with the snapshot taken after the last accepted update. non-trivial = history contains at least one misuse operation; distinct = (specification, case)");
+    ctx.rule("builder-made models (1..6 parameters, functions of arity 1..6 over ordered subsets, invariant functions, N in 1..9, f32/f64) driven through histories of 12 (quick) / 40 (thorough) operations mixing valid updates with misuse: a function or a derivative closure at a random position returning a vector that is empty / one shorter / one longer / much longer than N (in a third of the function cases a second function misbehaves in the same evaluation with the complementary length 2N-l), derivative indices P, P+1 and far beyond, parameter vectors of length 0, P-1, P+1 and more. Each misuse must return Err (never a panic, never Ok with a mis-shaped matrix); after every operation params(), eval() and every eval_partial_deriv(k) are compared bitwise with the snapshot taken after the last accepted update. non-trivial = history contains at least one misuse operation; distinct = (specification, case)");
     let t = ctx.tier;
     let len = t.pick(12, 40);
     ctx.run_cases("misuse-histories", t.pick(25000, 450000), t.pick(15.0, 900.0), |r, c, o| case(r, c, o, len));
